@@ -20,6 +20,17 @@ Proof. reflexivity. Qed.
 Lemma reset_on_new : reset_cache_on_new = true.
 Proof. reflexivity. Qed.
 
+(* ppobj.py PPEnumFieldType: below the palette the cell / length caches are indexed with
+   _val_cache_key(value) = (type(value), str(value), value) -- one entry per literal (fix of
+   enum-cache-equal-keys); Model.render_item looks the cell up by the literal *)
+Lemma val_key_literal : enum_val_key_literal = true.
+Proof. reflexivity. Qed.
+
+(* hdoc.py HCommand / LLImpl: the palette is looked up when it is used (fix of hdoc-captured-palette);
+   console help is a Render under the global configuration in the model *)
+Lemma help_at_call : help_palette_at_call = true.
+Proof. reflexivity. Qed.
+
 (* ------------------------------------------------------------------ *)
 (* association lists                                                    *)
 
@@ -760,11 +771,18 @@ Lemma good_get_sub w cp K w' p :
   w_synced w = [] -> In cp (held w) -> get_sub keyobj w cp K = Ok (w', p) -> good w w'.
 Proof. intros Hs Hh E. destruct (moves_get_sub _ _ _ _ _ Hs Hh E) as (M & G & _). split; assumption. Qed.
 
-(* objects whose enum cells do not alias (ASSUMPTION: values of one field
-   type are pairwise distinct under ==) *)
-Definition item_ok (it : item) : Prop :=
-  match it with IEnum _ _ vkey lit _ => lit = vkey | _ => True end.
+(* Before the repair of enum-cache-equal-keys the enum cells were cached by the class of the value
+   under ==, and the lemmas needed "lit = vkey" for every enum item (no two Python-equal literals in
+   one field type).  The cache is keyed by the literal now: EVERY item and EVERY object qualifies
+   (obj_ok_all).  The two predicates only remain as (trivially true) hypotheses of the lemmas below;
+   no theorem of Props.v mentions them. *)
+Definition item_ok (it : item) : Prop := True.
 Definition obj_ok (o : objspec) : Prop := Forall (Forall item_ok) (o_lines o).
+
+Lemma obj_ok_all o : obj_ok o.
+Proof.
+  unfold obj_ok. apply Forall_forall. intros l _. apply Forall_forall. intros it _. exact I.
+Qed.
 
 Lemma good_enum_cell w ft e v modi : good w (fst (enum_cell fts w ft e v v modi)).
 Proof.
@@ -785,11 +803,10 @@ Proof.
     intros [= <- _]. eapply good_get_sub; eassumption.
   - intros [= <- _]. apply good_refl.
   - intros [= <- _]. apply good_refl.
-  - cbn in Hok. subst lit.
-    destruct (get_sub keyobj w cp K) as [[w1 q]|] eqn:E; [|discriminate]. cbn [bind fst snd].
+  - destruct (get_sub keyobj w cp K) as [[w1 q]|] eqn:E; [|discriminate]. cbn [bind fst snd].
     pose proof (good_get_sub _ _ _ _ _ Hs Hh E) as G1.
-    pose proof (good_enum_cell w1 ft q vkey modi) as G2.
-    destruct (enum_cell fts w1 ft q vkey vkey modi) as [w2 c2]. cbn [fst] in G2.
+    pose proof (good_enum_cell w1 ft q lit modi) as G2.
+    destruct (enum_cell fts w1 ft q lit lit modi) as [w2 c2]. cbn [fst] in G2.
     intros [= <- _]. eapply good_trans; eassumption.
 Qed.
 
